@@ -389,7 +389,10 @@ pub fn procmsg_stream(seed: u64, cases: usize, ex: &mut ChildExec) -> Sink {
         let s = *rng.pick(&[32usize, 64, 64, 64]);
         // a custom hasher answering for code 0x99 (ok), 0x98 (custom error), 0x97 (fatal), and 0x96
         // (picky: refuses data starting with 0xee with a custom error, hashes everything else)
-        let spec = if rng.chance(1, 2) { "153:o,152:c,151:f,150:p" } else { "" };
+        // … or two hashers answering for 0x96: the older one always, the newer one (consulted first) declines data
+        // starting with 0xee with "unknown code" — which hasher is asked must be decided block by block
+        let spec = match rng.below(4) { 0 | 1 => "", 2 => "153:o,152:c,151:f,150:p", _ => "150:o;153:o,152:c,151:f,150:q" };
+        let newest = if spec.contains(';') { 2 } else { 1 };
         let mut base = Message::default();
         let mut exp_blocks: Vec<(CidGeneric<64>, Vec<u8>)> = vec![];
         let mut exp_pres: Vec<(CidGeneric<64>, i32)> = vec![];
@@ -404,7 +407,7 @@ pub fn procmsg_stream(seed: u64, cases: usize, ex: &mut ChildExec) -> Sink {
         if !spec.is_empty() && rng.chance(1, 2) {
             // a block whose CID is produced by the registered hasher (index 1, see cidexec::Scripted)
             let data = rng.bytes(4);
-            let cid = CidGeneric::<64>::new_v1(0x55, Multihash::<64>::wrap(0x99, &fake_digest(1, &data)).unwrap());
+            let cid = CidGeneric::<64>::new_v1(0x55, Multihash::<64>::wrap(0x99, &fake_digest(newest, &data)).unwrap());
             exp_blocks.push((cid, data.clone()));
             base.payload.push(Block { prefix: [uvarint(1), uvarint(0x55), uvarint(0x99), uvarint(9)].concat(), data });
             sink.count("procmsg.custom-hasher-block");
@@ -415,11 +418,21 @@ pub fn procmsg_stream(seed: u64, cases: usize, ex: &mut ChildExec) -> Sink {
             for _ in 0..1 + rng.below(2) {
                 let mut data = rng.bytes(4);
                 data[0] &= 0x7f;
-                let cid = CidGeneric::<64>::new_v1(0x55, Multihash::<64>::wrap(0x96, &fake_digest(1, &data)).unwrap());
+                let cid = CidGeneric::<64>::new_v1(0x55, Multihash::<64>::wrap(0x96, &fake_digest(newest, &data)).unwrap());
                 exp_blocks.push((cid, data.clone()));
                 base.payload.push(Block { prefix: [uvarint(1), uvarint(0x55), uvarint(0x96), uvarint(9)].concat(), data });
             }
             sink.count("procmsg.picky-hasher-good-block");
+        }
+        if newest == 2 && rng.chance(1, 2) {
+            // a block the newer hasher declines ("unknown code" for this data): the older one hashes it; the
+            // blocks after it are again the newer hasher's
+            let pos = rng.below(base.payload.len() + 1);
+            let data = [vec![0xee], rng.bytes(3)].concat();
+            let cid = CidGeneric::<64>::new_v1(0x55, Multihash::<64>::wrap(0x96, &fake_digest(1, &data)).unwrap());
+            exp_blocks.push((cid, data.clone()));
+            base.payload.insert(pos, Block { prefix: [uvarint(1), uvarint(0x55), uvarint(0x96), uvarint(9)].concat(), data });
+            sink.count("procmsg.declined-by-newest-hasher");
         }
         if nb > 0 && rng.chance(1, 5) {
             // duplicate payload inside one message
@@ -456,7 +469,7 @@ pub fn procmsg_stream(seed: u64, cases: usize, ex: &mut ChildExec) -> Sink {
         }
         // one bad element at every position
         for pos in 0..=base.payload.len() {
-            let kind = if !spec.is_empty() && rng.chance(1, 4) { 7 } else { rng.below(7) };
+            let kind = if newest == 1 && !spec.is_empty() && rng.chance(1, 4) { 7 } else { rng.below(7) };
             let mut m = base.clone();
             let (bad, oracle): (Block, String) = match kind {
                 0 => (Block { prefix: [uvarint(1), uvarint(0x55), uvarint(0x77), uvarint(32)].concat(), data: rng.bytes(3) }, base_out.clone()), // unknown code: skipped
